@@ -25,6 +25,8 @@ def run(ck, tier):
     _infl.run(ck, F, 'C11')
     from . import mustpass as _mp
     _mp.run(ck, F, 'C11')
+    from . import accum as _acc
+    _acc.run(ck, F, 'C11')
     from . import arms
     stab = [e for e in arms.load_sink_table() if e["fn"].startswith("arrow_row::")]
     ck.rule("C11.sink-uniform", "both arms of LengthTracker::extend_offsets let `initial_offset` influence the offsets they push AND the total they return (appending "
